@@ -15,6 +15,10 @@ Definition s_dotdot : pstr := [46; 46]%N.
 Definition s_text : pstr := [116; 101; 120; 116; 40; 41]%N.    (* text() *)
 Definition s_root : pstr := [c_slash].
 
+(* "[" ++ s ++ "]" and a ++ "/" ++ b as the f-strings of the resolver build them *)
+Definition br (s : pstr) : pstr := c_lb :: s ++ [c_rb].
+Definition sl (a b : pstr) : pstr := a ++ c_slash :: b.
+
 Definition nonempty (s : pstr) : bool := match s with [] => false | _ => true end.
 
 (* [itm.strip() for itm in xpath.replace("][","]/[").split('/') if itm] *)
